@@ -121,3 +121,40 @@ Proof. vm_compute. repeat split. Qed.
 Example big_char_refused :
   compress_backtrack [0] Ice [[mkcell 9608 default_attr]] = ErrOnly8Bit /\ plain_rows [0] Ice [[mkcell 9608 default_attr]] = ErrOnly8Bit.
 Proof. vm_compute. split; reflexivity. Qed.
+
+(* ==== Extension: whole FILES ========================================================================================
+   Composition with property C05's file-level model (header, flags, palette and font blocks: Model/C05XBin.v; the writer with
+   SaveOptions.compress: Model/C05XBinC.v `save_xbo`) and the loader as it is after C02's fixes (Model/C02Loaders.v `load_xb2`).
+   Proofs: Proofs/C05XBinCProofs.v (which rests on impl_decoder_agrees_with / compress_with_sound above).
+   `xb_shape_g p two pg0 pg1 f0 f1 fh`: the picture has a size (1..4096 x 0..65535), a palette and font blocks the format
+   admits and uses the font pages pg0 (and pg1); NOTHING is assumed about its cells.  Names of the C05 side are qualified
+   because this file imports C06's own cell type. *)
+From IE Require Lib.C05Lib Model.C05Buf Model.C05XBin Model.C05XBinC Model.C02Loaders Proofs.C05XBinCProofs.
+
+(* "the compressed and the uncompressed XBin encodings decode to identical pictures": the two FILES load to the same buffer -
+   every stored cell with its font page, sizes, modes, palette, fonts - whatever SAUCE records come with them *)
+Theorem compressed_file_decodes_as_uncompressed_file : forall p two pg0 pg1 f0 f1 fh s s' dc,
+  C05XBinCProofs.xb_shape_g p two pg0 pg1 f0 f1 fh ->
+  C05XBinC.save_xbo true p = C05Lib.Ok dc ->
+  exists du, C05XBinC.save_xbo false p = C05Lib.Ok du /\ C02Loaders.load_xb2 dc s = C02Loaders.load_xb2 du s'.
+Proof. exact C05XBinCProofs.xb_files_load_alike. Qed.
+
+(* "nothing but the optional SAUCE record follows the last row": the compressed file is the header, palette and font blocks
+   followed by exactly one stream the specification decoder accepts completely (remainder []), whose rows decode to the
+   (character, attribute) pairs of the uncompressed encoding *)
+Theorem compressed_file_conforms_to_spec : forall p two pg0 pg1 f0 f1 fh dc,
+  C05XBinCProofs.xb_shape_g p two pg0 pg1 f0 f1 fh ->
+  C05XBinC.save_xbo true p = C05Lib.Ok dc ->
+  exists D, dc = C05XBinCProofs.xb_file p two f0 f1 fh true D /\
+            xb_spec_rows (Z.to_nat (C05Buf.p_w p)) (length (C05Buf.p_rows p)) D =
+            Some (map (map (fun c => (C05Buf.c_ch c, C05XBin.encode_attr (C05Buf.p_ice p) (C05XBinCProofs.xb_pages two pg0 pg1) c)))
+                      (C05Buf.p_rows p), []).
+Proof. exact C05XBinCProofs.xb_file_spec_conformant. Qed.
+
+(* the two models of the readers used above describe the same function: whenever C06's trace model of read_data_compressed
+   ends with Ok, C02's layer model returns the layer with those set_char calls applied (and likewise for the uncompressed
+   reader), for every mode, font mode, width, starting layer and byte string *)
+Theorem reader_models_agree : forall m fixed w fuel bs L x y tr,
+  rdc (C05XBinC.ice6 m) fixed w fuel (x, y) bs = (tr, ROk) ->
+  C02Loaders.xbc_loop w (C05XBin.xb_decode m fixed) fuel L x y bs = C05Lib.Ok (C05XBinCProofs.apply_trace L tr).
+Proof. exact C05XBinCProofs.loop_bridge. Qed.
